@@ -76,8 +76,8 @@ for p in props:
     else:
         na.append({"property_id": pid, "reason": "not yet built in this commit (in progress; every property is intended to be claimed)"})
 man = {"version": 1, "setup_cmd": "./setup.sh",
-       "hooks": {"guard": "verif", "enable": "go build -tags verif (the harness module replaces github.com/openacid/low with /repo); no hook file was needed: every observable is exported API",
-                 "baseline_off_cmd": "cd /repo && GOFLAGS=-mod=mod go test -vet=off -count=1 ./...", "source_commits": [], "add_only": True},
+       "hooks": {"guard": "verif", "enable": "go build -tags verif (the harness module replaces github.com/openacid/low with /repo); one add-only hook file, bitmap/verif_export.go (//go:build verif), exports the unexported select helpers select32single / indexSelectU64 / selectU64Indexed / select8Lookup for the C02 widening; every other observable is exported API",
+                 "baseline_off_cmd": "cd /repo && GOFLAGS=-mod=mod go test -vet=off -count=1 ./...", "source_commits": ["28bc14c90ece551eac3ea72627aaf1c91441c41a"], "add_only": True},
        "engines": [{"name": "coq-model+correspondence", "path": "check", "serves_properties": claimed,
                     "kind_free_text": "Coq 8.16 theorems about a hand-written executable Gallina model (coq/theories); Run.All.judge (model + spec checker) extracted to OCaml and run against the Go implementation, rebuilt from /repo's working tree on every run; C19 additionally regenerates an effect model from the Go source (go/ssa translator)"}],
        "checks": checks, "not_applicable": na,
